@@ -1,9 +1,11 @@
 #!/bin/bash
 # tools/recheck_seeded.sh [names...]: re-apply every kept seeded change to /repo, run the checks recorded as catching
 # it, revert.  Prints one line per change; exit 1 if some change is no longer caught.
-cd "$(dirname "$0")/.." || exit 2
-cd /repo && git diff --quiet || { echo "/repo dirty"; exit 2; }
-cd /verif
+# RECHECK_REPO / RECHECK_VERIF: run against a private pair (a worktree of /repo and a copy of /verif) so that
+# /repo and /verif stay free while this runs for an hour or two
+REPO=${RECHECK_REPO:-/repo}; V=${RECHECK_VERIF:-/verif}; export VERIF_REPO=$REPO
+cd $REPO && git diff --quiet || { echo "$REPO dirty"; exit 2; }
+cd $V || exit 2
 names="$@"; [ -z "$names" ] && names=$(ls seeded)
 missed=0
 for n in $names; do
@@ -11,14 +13,15 @@ for n in $names; do
   [ -f $d/patch.diff ] || continue
   if python3 -c "import json,sys;sys.exit(0 if 'superseded_by' in json.load(open('$d/meta.json')) else 1)"; then echo "$n: superseded (the code it edits was replaced by a later fix)"; continue; fi
   checks=$(python3 -c "import json;print(' '.join(json.load(open('$d/meta.json'))['caught_by']))")
-  git -C /repo apply $V$PWD/$d/patch.diff 2>/dev/null || git -C /repo apply /verif/$d/patch.diff || { echo "$n: patch does not apply"; missed=$((missed+1)); continue; }
+  git -C $REPO apply $V/$d/patch.diff || { echo "$n: patch does not apply"; missed=$((missed+1)); continue; }
   caught=""
   for c in $checks; do
     ./check $c quick > out/recheck.$n.$c.log 2>&1; rc=$?
     [ $rc -eq 1 ] && caught="$caught $c"
     [ $rc -eq 2 ] && caught="$caught $c(HARNESS-ERROR)"
   done
-  git -C /repo checkout -- .
+  git -C $REPO checkout -- .
+  [ -z "$checks" ] && { echo "$n: left unreported on purpose (see DESIGN 9.7)"; continue; }
   if [ -z "$caught" ]; then echo "$n: NOT CAUGHT (ran: $checks)"; missed=$((missed+1)); else echo "$n: caught by$caught"; fi
 done
 echo "recheck: $missed not caught"
